@@ -87,21 +87,21 @@ NOT_YET = {}
 
 # monitors added after the seeded rounds (DESIGN.md sections 3.7, 3.8 and "Additions after the seeded rounds")
 _EXTRA = {
-    "C01": "; object / population histories (path reassigned, re-configured copy, shared filter dictionary, files arriving between queries)",
+    "C01": "; object / population histories (path reassigned, re-configured copy, shared filter dictionary, files arriving between queries, time_coverage re-assigned, date-like stray directories)",
     "C02": "; object histories (placeholders set late, re-configured copy, time_coverage re-assigned after a look-up), explicit template= checks, short partial ends",
     "C03": "; concurrent-call monitor on one tree; build buffer refilled after construction; all-covering partner files",
-    "C04": "; call histories on one Collocator (in-place updated inputs, grid reuse), threads option, inputs-unchanged monitor, thresholds above one day",
-    "C05": "; forced rare classes (fixed grid, midnight-crossing files, pre-binned file pairs), makedirs rendezvous of two workers, period end on a file start",
+    "C04": "; call histories on one Collocator (in-place updated inputs, grid reuse), threads option, inputs-unchanged monitor, thresholds above one day and of zero, failed-build-then-retry history",
+    "C05": "; forced rare classes (fixed grid, midnight-crossing files, pre-binned file pairs), makedirs rendezvous of two workers, period end on a file start, unreadable non-last primary",
     "C06": "; call-history monitor on query, build arrays refilled after construction, MemoryError failpoint in the radius search",
     "C07": "; call-history monitor on every function (un-armed originals), inputs-unchanged monitor, keyword-call relation, concurrent-call monitor with statement-level yield injection",
     "C08": "; call-history and concurrent-call monitors on every function, inputs-unchanged monitor, keyword-call relation",
     "C09": "; buffer-reuse call histories on every function, million-element arrays against piecewise evaluation, keyword spelling of rejected calls",
-    "C10": "; two filesets with different handlers in use at once; files= as list/tuple/generator/iterator/empty; compressed fileset with an unreadable member",
-    "C11": "; harness-side configuration record, failing-writer conservation step, single-file moves, per-call read arguments, symlinked members",
-    "C12": "; explicit tmpdir on another file system",
-    "C13": "; view-returning collapser with an order-free oracle, inputs-unchanged monitor, per-part variables without the collocation dimension",
+    "C10": "; two filesets with different handlers in use at once; files= as list/tuple/generator/iterator/empty; compressed fileset with an unreadable member, same base names under an own temp_dir",
+    "C11": "; harness-side configuration record, failing-writer conservation step, single-file moves, per-call read arguments, symlinked members, target on another file system, shared filters dictionary",
+    "C12": "; explicit tmpdir on another file system, names that are symbolic links",
+    "C13": "; view-returning collapser with an order-free oracle, inputs-unchanged monitor, per-part variables without the collocation dimension, pre-binned real results",
     "C14": "; call-history monitor, independent saturation model at the regime boundaries, first use of a fresh interpreter from 32 threads under per-statement delay injection",
-    "C15": "; re-save / reload histories on live objects, C-locale restarts, surrogate paths",
+    "C15": "; re-save / reload histories on live objects, C-locale restarts, surrogate paths, bare relative cache names",
     "C16": "; object / population histories (re-configured copy, date-like stray directories), handler-provided coverage, fixed name-order and direct-hit scenarios",
     "C17": "; call histories (in-place updated inputs, held results, float32 first), closed-form high-SNR class, integer-dtype inputs against float64, invalid-inputs-first process history, keyword-call relation",
     "C18": "; call histories against a newly built twin object",
